@@ -5,12 +5,16 @@ package event
 // ---------------------------------------------------------------------------
 // C37: beacon DKG-started deduplication
 
+// dkgAdmit names the answer for the caller-side contract in pkg/beacon (C06)
+//@ ghost dkgAdmit bool
 //@ func Deduplicator.NotifyDKGStarted
 //@   property C37
 //@   requires newDKGSeed != nil
 //@   binds ghost.cacheSeen = false
 //@   binds ghost.tcShared = true
-//@   modifies ghost.cacheAdds, ghost.cacheLastAdd, ghost.cacheLastKey, ghost.cacheLastCache, ghost.tcContent, ghost.tcHit
+//@   modifies ghost.cacheAdds, ghost.cacheLastAdd, ghost.cacheLastKey, ghost.cacheLastCache, ghost.tcContent, ghost.tcHit, ghost.dkgAdmit
+//@   yields ghost.dkgAdmit = result0
+//@   ensures ghost.dkgAdmit == result
 //@   ensures [proceeds-only-as-the-one-inserting-caller] result ==> ghost.cacheAdds == old(ghost.cacheAdds) + 1 && ghost.cacheLastAdd && ghost.cacheLastCache == d.dkgSeedCache && ghost.cacheLastKey == big2str(bigval(newDKGSeed))
 //@   ensures [duplicate-only-if-seen-or-the-atomic-insert-failed] !result ==> (ghost.cacheAdds == old(ghost.cacheAdds) && ghost.cacheSeen) || (ghost.cacheAdds == old(ghost.cacheAdds) + 1 && !ghost.cacheLastAdd && ghost.cacheLastCache == d.dkgSeedCache && ghost.cacheLastKey == big2str(bigval(newDKGSeed)))
 
